@@ -58,7 +58,7 @@ func runC09(c *rules.Ctx) {
 	c.CheckedCallOpt(DI, "incentiveskeeper.Keeper.distributeSyntheticInternal", nil, "a failing synthetic gauge fails the distribution", "", false)
 	c.Order(DI, "incentiveskeeper.Keeper.doDistributionSends", "incentiveskeeper.Keeper.checkFinishDistribution", "gauges are finished only after the pay-outs were made")
 	// epoch hook
-	c.Returns("x/incentives/keeper.Hooks.AfterEpochEnd", 0, "incentiveskeeper.Keeper.AfterEpochEnd(h.k,ctx,epochIdentifier,epochNumber)", "the epochs module sees the keeper's verdict: the hook wrapper returns the keeper's error unchanged (a half-done distribution is rolled back)", "")
+	c.CheckedCall("x/incentives/keeper.Hooks.AfterEpochEnd", "incentiveskeeper.Keeper.AfterEpochEnd", []string{"h.k", "ctx", "epochIdentifier", "epochNumber"}, "the epochs module sees the keeper's verdict: the hook wrapper fails when the keeper's epoch step fails (a half-done distribution is rolled back)", "")
 	const H = K + "AfterEpochEnd"
 	c.OnlyWhen(H, "incentiveskeeper.Keeper.moveUpcomingGaugeToActiveGauge", "not(lt(sdk.Context.BlockTime(ctx), elem(_).StartTime))", "a gauge becomes active only once its start time has been reached")
 	c.NeverAfter(H, "incentiveskeeper.Keeper.Distribute", "incentiveskeeper.Keeper.moveUpcomingGaugeToActiveGauge", "activation happens before distribution in the same epoch")
